@@ -1,6 +1,7 @@
 """C01 -- no motion into, no extrusion inside an excluded region (E1, FilterWorld)."""
 from ..engine import Scenario
 from ..world import World
+from .. import findings
 
 NONTRIVIAL = {"in-episode", "episode-opened", "episode-closed"}
 RULE = ("breadth-first enumeration of all event histories over the scenario menu (moves to named points "
@@ -46,4 +47,25 @@ def scenarios(tier):
                  max_states=cap, note="relative positioning and inch units: depth-bounded (rounding makes states "
                                       "path-dependent)"),
     ]
+    out.append(Scenario("c01-relarc", World, dict(base, regions=["R"], relarcs=True, monitors=("c01", "c03")),
+                        [("REL",), ("ABS",), ("ARC", "clear"), ("ARC", "under"), ("TRAVEL", "O1"), ("TRAVEL", "I1"),
+                         ("TRAVEL", "O2"), ("XONLY", "I1")], max_depth=5, max_states=cap, finding="D14",
+                        note="dedicated to known finding D14: G2/G3 while in relative positioning (G91)"))
     return out
+
+
+@findings.predicate("D14")
+def _is_d14(finding, payload):
+    """Instance of D14 iff the counterexample contains an arc command issued while the file is in G91."""
+    rel = False
+    for row in payload.get("trace", []):
+        for hc in row.get("hook_calls", []):
+            c = hc.get("cmd", "")
+            if c == "G91":
+                rel = True
+            elif c == "G90":
+                rel = False
+            elif c.split(" ")[0] in ("G2", "G3") and rel:
+                return True
+    d = payload.get("trace", [{}])[-1].get("detail") or {}
+    return rel and str(d.get("cmd", "")).split(" ")[0] in ("G2", "G3")
